@@ -454,3 +454,35 @@ def c05_thin_cost(ctx, shape, l1, weighted):
         cell = abs((lo + hi) / 2) if l1 == "CONSTANT_CELL_PROJECTION" else (abs(lo) + abs(hi)) / 2
         want = want + vol * cwl[c] * cell
     ctx.ensure("l1_dissipation(flux) == independently written cost of that flux", eq(got, want))
+
+
+@ob("C05.thin_cost_rt", kind="B", cases=[dict(shape=s, weighted=wt) for s in [(4,), (7,), (12,), (1, 5), (6, 1), (1, 1, 4)] for wt in (False, True)], funcs=FUNCS, samples=(2, 5), tol=1e-11,
+    cite="Where mass conservation leaves no freedom (one-dimensional and one-cell-thin grids) every method ... returns the cost of the unique mass-conserving flux, which is computable independently",
+    note="bounded companion of C05.thin_cost for the default Raviart-Thomas mode: on a thin grid the cost of a flux is the sum over cells of volume * weight * (5-point Gauss-Legendre "
+         "integral over the cell of |linear interpolant of the two face values|), computed here with numpy's own leggauss; sign changes inside cells included; reversing the cell "
+         "order leaves the cost unchanged (after seed C05_h: points and weights of the 1-D rule paired in different orders)")
+def c05_thin_cost_rt(ctx, shape, weighted):
+    rng = np.random.default_rng(ctx.rng.randrange(1 << 30))
+    grid, h = grid_of(shape)
+    dim = len(shape)
+    cw = rng.random(shape) + 0.5 if weighted else np.ones(shape)
+    wimg = darsia.Image(cw.copy(), space_dim=dim, scalar=True, dimensions=[shape[k] * h[k] for k in range(dim)]) if weighted else None
+    w = solver("newton", grid, base_options(l1_mode=W.L1Mode.RAVIART_THOMAS, formulation="full"), wimg)
+    nf = int(grid.num_faces)
+    q = rng.standard_normal(nf)
+    got = float(w.l1_dissipation(q))
+    ax = int(np.argmax(shape))
+    vol = float(np.prod(h))
+    cwl = np.ravel(np.moveaxis(cw, ax, 0))
+    x, wt = np.polynomial.legendre.leggauss({1: 5, 2: 4, 3: 3}[dim])      # points per direction of the code's 'max' rule (orders 4, 3, 2)
+    # the rule the code uses on a thin grid in dim dimensions: tensor Gauss rule of its 'max' order; the integrand varies along the long axis only, so the
+    # tensor rule collapses to the 1-D rule of the same number of points per direction
+    x, wt = (x + 1) / 2, wt / 2
+    qq = np.concatenate([[0.0], q, [0.0]])
+    want = sum(vol * cwl[c] * float(np.sum(wt * np.abs(qq[c] + (qq[c + 1] - qq[c]) * x))) for c in range(len(qq) - 1))
+    ctx.ensure("l1_dissipation (Raviart-Thomas) == independently integrated cost of the flux", abs(got - want) <= 1e-11 * max(1.0, abs(want)))
+    # reflection: the same flux on the reversed grid line
+    if dim == 1:
+        wr = solver("newton", grid, base_options(l1_mode=W.L1Mode.RAVIART_THOMAS, formulation="full"),
+                    darsia.Image(cw[::-1].copy(), space_dim=1, scalar=True, dimensions=[shape[0] * h[0]]) if weighted else None)
+        ctx.ensure("reversing the order of the cells does not change the cost", abs(float(wr.l1_dissipation(-q[::-1])) - got) <= 1e-11 * max(1.0, abs(got)))
